@@ -69,7 +69,15 @@ def rollbackFamily (st : Nat) : Bool := st ∈ [4, 5, 6, 7, 10, 11, 12, 13, 14]
 def commitFamily (st : Nat) : Bool := st ∈ [2, 3, 8, 9]
 
 /-- `commitRefusal resp == nil` -/
-def acknowledged (rc : RC) (st : Nat) : Bool :=
+def acknowledged (_ : RC) (st : Nat) : Bool :=
+  -- a status that says the commit is decided, whatever the result code; nothing else is an acknowledgement:
+  -- not the rollback family, and not Begin, UnKnown or Finished (the coordinator no longer knows the transaction:
+  -- it may have committed it, or rolled it back after a timeout)
+  commitFamily st
+
+/-- `commitRefusal resp == nil` as it stood before the repair: a status outside both families was an
+    acknowledgement when the result code said Success -/
+def acknowledgedBeforeFix (rc : RC) (st : Nat) : Bool :=
   if rollbackFamily st then false
   else if commitFamily st then true
   else rc == .success
@@ -96,10 +104,9 @@ def rollbackAcknowledgedBeforeFix (_ : RC) (_ : Nat) : Bool := true
 def decision (cb : Outcome) : Req := if cb = .ok then .commit else .rollback
 
 /-- WithGlobalTx for a launcher, as the code stands at HEAD (after the `fix:` commits).
-    A reply `.ok` is an ACKNOWLEDGEMENT in the sense of `commitRefusal`: result code Success with a status
-    outside the rollback family, or any reply whose status says the commit is decided (Committing,
-    CommitRetrying, AsyncCommitting, Committed).  A reply `.failed` is anything else the coordinator answers:
-    result code Failed without such a status, or a status of the rollback family. -/
+    A reply `.ok` is an ACKNOWLEDGEMENT in the sense of `commitRefusal`: a reply whose status says the commit is
+    decided (Committing, CommitRetrying, AsyncCommitting, Committed), whatever its result code.  A reply `.failed`
+    is anything else the coordinator answers. -/
 def withGlobalTx (retries : Nat) (beginReply : Reply) (cb : Outcome) (script : List Reply)
     (cancelAt : Option Nat) : List Req × Ret :=
   match beginReply with
